@@ -82,8 +82,8 @@ func (r *c09Runner) run(p *c09Params) ([]string, int) {
 		pre.AF.Hi, pre.BC.Lo, pre.BC.Hi = 0xA7, uint8(p.BC), 0x55
 		func() {
 			defer func() { recover() }()
-			pre.Step()
-			pre.Step()
+			liveStep(&pre)
+			liveStep(&pre)
 		}()
 	}
 	w.setup(&cs)
